@@ -918,7 +918,8 @@ func runC01(c *Cfg) {
 					args = append(args, "-focus")
 				}
 				cmd := exec.Command(exe, args...)
-				cmd.Env = os.Environ()
+				// one evaluation at a time per worker: keep the Go runtime of each small
+				cmd.Env = append(os.Environ(), "GOMAXPROCS=2", "GOGC=200")
 				out, err := cmd.CombinedOutput()
 				mu.Lock()
 				c1Merge(c, dir)
